@@ -80,6 +80,11 @@ class UnitarySerializedEmulator(IndependentSubcircuitsBackend):
                     # follow map aliases to the index in the fundamental register
                     qind.append(val.resolve_qubit()[1])
 
+            if len(set(qind)) != len(qind):
+                raise JaqalError(
+                    f"Cannot emulate gate {gate.name}: it acts on the same qubit more than once"
+                )
+
             # This is the dense submatrix
             dsub = gatedef.ideal_unitary(*argv)
 
